@@ -613,11 +613,27 @@ class Backend(ABC):
                 )
             case SigmaQueryExpression():
                 return self.convert_condition_query_expr(cond, state)
+            case SigmaExpansion():
+                return self.convert_condition_val_expansion(cond, state)
             case _:  # pragma: no cover
                 raise TypeError(
                     "Unexpected value type class in condition parse tree: "
                     + cond.value.__class__.__name__
                 )
+
+    def convert_condition_val_expansion(
+        self, cond: ConditionValueExpression, state: ConversionState
+    ) -> Any:
+        """
+        Convert each value of the expansion as value-only condition and OR-link all converted
+        subconditions.
+        """
+        expansion = cast(SigmaExpansion, cond.value)
+        or_cond = ConditionOR(
+            [ConditionValueExpression(value) for value in expansion.values],
+            cond.source,
+        )
+        return self.convert_condition_or(or_cond, state)
 
     def convert_condition(
         self,
